@@ -52,8 +52,8 @@ func famSesBatch(t *testing.T, r *Rec) {
 							m.kind = "b"
 						}
 						pre := "-"
-						if i == prePos {
-							m = rmsg{"t", []byte(fmt.Sprintf("pre%d", i))}
+						if i == prePos || (prePos >= 0 && i == prePos+2) { // the same frame again two sends later: a broadcast's second recipient
+							m = rmsg{"t", []byte(fmt.Sprintf("pre%d", prePos))}
 							pre = "t" + hx(append([]byte("4"), m.data...))
 						}
 						ss.sent = append(ss.sent, m)
@@ -844,6 +844,11 @@ func famSesHostile(t *testing.T, r *Rec) {
 				for _, e := range o.events {
 					if e.name == "message" && len(unhx(e.args[1])) > 100 {
 						r.Violate("C10", "C10/delivered/"+sc.name, fmt.Sprintf("a message of %d bytes was delivered with maxPayload 100", len(unhx(e.args[1]))), sc.lines[:i+1])
+						if len(unhx(e.args[1])) > 10*100 {
+							// a connection that buffers whatever one client sends, far beyond the configured limit, lets that
+							// client take the server's memory: the worst outcome allowed is that its session is closed
+							r.Violate("C09", "C09/unbounded-buffering/"+sc.name, fmt.Sprintf("the server buffered and delivered a message of %d bytes on a connection limited to 100: one client can exhaust the server instead of being closed", len(unhx(e.args[1]))), sc.lines[:i+1])
+						}
 					}
 				}
 				if f[1] == "post" && size > 100 {
@@ -1274,6 +1279,32 @@ func famSesResp(t *testing.T, r *Rec) {
 						if ae == "-" || !acceptNames(ae)[ce[0]] {
 							r.Violate("C16", "C16/coding-not-named-by-accept-encoding/"+ce[0], fmt.Sprintf("Content-Encoding %s although the request's Accept-Encoding is %q", ce[0], ae), replay)
 						}
+					}
+				}
+			}
+		}
+	}
+	// a CORS policy that names the request's origin out of a list, on responses that are and are not content-encoded:
+	// the answer depends on the request, so every such response carries Vary: Origin, whatever else it varies on
+	for _, thr := range []string{"16", "100000"} {
+		for _, ae := range []string{"gzip", "br", "-"} {
+			msg := append([]byte("m"), bytes_repeat('c', 400)...)
+			poll := "ses poll s0"
+			if ae != "-" {
+				poll += " " + hx([]byte(ae))
+			}
+			lines := []string{fmt.Sprintf("ses cfg 25000 20000 1000 100000 default 1 0 - 0 %s - cors:%s", thr, hx([]byte("https://a.example"))),
+				"ses hs polling 4 0 -", fmt.Sprintf("ses send s0 t %s 1 0 -", hx(msg)), poll, "ses post s0 t 1 346869", fmt.Sprintf("ses send s0 t %s 1 0 -", hx(msg)), poll}
+			outs := sesRun(t, lines)
+			r.scenarios++
+			r.Cover(fmt.Sprintf("resp/cors/thr=%s/ae=%s", thr, ae))
+			for i, l := range lines {
+				r.Op(l, outs[i])
+				for _, tok := range strings.Fields(outs[i]) {
+					if strings.HasPrefix(tok, "CORS!:") {
+						p := strings.Split(tok, ":")
+						r.Violate("C17", "C17/cors/session-response/vary-or-allow-origin", fmt.Sprintf("response %s of a session under a policy that names the request's origin: Access-Control-Allow-Origin=%q Vary=%q (want the origin, and Vary to name Origin)",
+							p[1], unhx(strings.TrimPrefix(p[2], "acao=")), unhx(strings.TrimPrefix(p[3], "vary="))), lines[:i+1])
 					}
 				}
 			}
